@@ -1,6 +1,7 @@
 package main
 
 import (
+	"io"
 	"bytes"
 	"fmt"
 
@@ -81,6 +82,20 @@ func decodeErrorCases() []decErrCase {
 			decErrCase{fmt.Sprintf("unsupported-type/size%d", n), func() any { return &stubNone{} }, pattern(n), csproto.ErrUnmarshaler},
 			decErrCase{fmt.Sprintf("nil-interface/size%d", n), func() any { return nil }, pattern(n), csproto.ErrUnmarshaler},
 			// (a Google V1 message without XXX_ methods is a supported message since csproto delegates it to golang/protobuf: see C11)
+		)
+	}
+	// nested failures that ARE (or wrap) the sentinels callers test for: the bridge hands the nested error on, it does not
+	// translate it - errors.Is / errors.As on what DecodeNested returns still find them
+	for _, se := range []struct {
+		n string
+		e error
+	}{{"io.ErrUnexpectedEOF", io.ErrUnexpectedEOF}, {"io.EOF", io.EOF}, {"wrapped-io.ErrUnexpectedEOF", fmt.Errorf("nested field 3: %w", io.ErrUnexpectedEOF)},
+		{"csproto.ErrValueOverflow", csproto.ErrValueOverflow}, {"csproto.ErrInvalidVarintData", csproto.ErrInvalidVarintData}, {"typed-error", &typedErr{7}}} {
+		se := se
+		out = append(out,
+			decErrCase{"failing-Unmarshal-fastmarshal-stub/" + se.n, func() any { return &stubTo{rec{failUnmarshal: se.e}} }, pattern(3), se.e},
+			decErrCase{"failing-Unmarshal-marshaler-stub/" + se.n, func() any { return &stubM{rec{failUnmarshal: se.e}} }, pattern(3), se.e},
+			decErrCase{"failing-XXX_Unmarshal-stub/" + se.n, func() any { return &stubV1{rec{failUnmarshal: se.e}} }, pattern(3), se.e},
 		)
 	}
 	trunc := []byte{0x08}             // field 1, varint, value missing
@@ -332,3 +347,8 @@ func checkDeclaredLengths(r *ev.Run) (n int64) {
 	r.Set("declared_lengths", ds)
 	return n
 }
+
+// typedErr is a nested failure of a type of its own (errors.As).
+type typedErr struct{ code int }
+
+func (e *typedErr) Error() string { return fmt.Sprintf("c19: typed nested failure %d", e.code) }
